@@ -661,3 +661,122 @@ theorem othersFit_of_ignored (mask : Quic.Dissect.MaskFn) (H : Crypto.Prims) (P 
 end
 
 end TLX.Props.C01File2
+
+/-! ### non-vacuity -/
+namespace TLX.Props.C01File2.Ex
+open TLX TLX.MainLoop TLX.Spec.Demux TLX.Dissect TLX.Export TLX.Props.C01File TLX.Props.C01File.Ex
+open TLX.Spec.FrameBuild TLX.Spec.TlsCapture TLX.Spec.NssKeylog
+open TLX.Cipher TLX.RecordLayer TLX.Spec.TlsSender TLX.Props.C01 TLX.Lemmas.Pipeline TLX.Spec.TlsConnection
+open TLX.Lemmas.Capstone TLX.Props.C01Pipeline TLX.Spec.TlsFraming TLX.Props.C01Capstone TLX.Props.C01Capstone.Ex
+open TLX.Props.C01Pipeline.Ex2 TLX.Props.C01.Ex
+
+/-- the key-log FILE: a comment (LF), the connection's CLIENT_RANDOM line with UPPER-CASE client-random digits (CRLF), a line
+    of another tool (LF) -/
+def tr0 : Triple := ⟨Keylog.s_CLIENT_RANDOM, Pipeline.natsOfBytes cr0, List.replicate 48 5⟩
+def hcU : Keylog.Str := (Keylog.hexOf (Pipeline.natsOfBytes cr0)).map fun c => if 97 ≤ c ∧ c ≤ 102 then c - 32 else c
+def ls0 : List (C09Found.FLine × Bool) :=
+  [(.other [35, 32, 107, 101, 121, 115], false), (.key tr0 hcU (Keylog.hexOf (List.replicate 48 5)), true),
+   (.other [83, 79, 77, 69, 32, 116, 111, 111, 108], false)]
+
+def fkU : Keylog.Key := ⟨Keylog.s_CLIENT_RANDOM, hcU, Keylog.hexOf (List.replicate 48 5)⟩
+
+theorem ls0_wf : ∀ x ∈ ls0, x.1.WF := by
+  intro x hx
+  simp only [ls0, List.mem_cons, List.mem_nil_iff, or_false] at hx
+  rcases hx with rfl | rfl | rfl
+  · exact ⟨by decide, by decide, Lemmas.Keylog.not_looks_of_first 35 _ (by decide)⟩
+  · show DenotesVia _ tr0 hcU _
+    exact ⟨rfl, by decide, by decide +kernel, by decide, by decide +kernel, by decide⟩
+  · refine ⟨by decide, by decide, ?_⟩
+    rintro ⟨w, h, rest, e, _, _, hl, _⟩
+    have := congrArg List.length e
+    simp only [List.length_append, List.length_cons, hl] at this
+    simp at this
+    omega
+
+theorem arp_ignored : Ignored (optsOf args0 ports0 []) arp := by
+  intro tag
+  exact ⟨.notTcpUdp, by simp [arp, pktOf, Ingest.otherPkt, classify]⟩
+
+/-- **Non-vacuity of `tls12_capture_exact_text`.** Every hypothesis is discharged for the concrete capture file of
+    `C01File.Ex` and this key-log file — EXCEPT the one IEEE-754 fact (`hus`: the doubles the tool computes for the ten packet
+    times round to less than 2^64 µs), which no Lean proof can evaluate; the harness replays it on CPython.  So: the run
+    writes a file, and the file contains exactly the conversation "hi" / sixteen bytes. -/
+theorem tls12_text_instance (hus : ∀ e ∈ evs0.map CEv.cap, e.us < 2 ^ 64) :
+    ∃ f, exportFile (fun _ _ _ => none) hashes Cipher.Toy.prims args0 cv0.isLegacy (some (C09Found.fileText ls0))
+        (Spec.Containers.encode cv0 cevs0) = .file f ∧ Exact f sess0 hi k16 := by
+  have hres : CipherSuite.resolve (Bytes.beNat t0.sh.cipherSuite) = some ps0 := by decide +kernel
+  have hargs : Pipeline.suiteArgs ps0 = some a0 := some_getD _ _ (by decide +kernel)
+  have hfound : (C09Found.linesFor (Pipeline.natsOfBytes t0.ch.random) ls0).filter
+      (fun k => k.label == Keylog.s_CLIENT_RANDOM || k.label == Keylog.s_RSA)
+        = fkU :: [] := by decide +kernel
+  have hsec : Pipeline.secretsOf false (fkU :: [])
+      = some secrets0 := by decide +kernel
+  have hgen : KeySchedule.generateKeys hashes (Pipeline.ksVersion .tls12) a0.ks secrets0 t0.ch.random t0.sh.random
+      = .ok (some (.legacy k0)) :=
+    gen_eq (KeySchedule.generateKeys hashes .tls12 a0.ks secrets0 cr0 sr0) k0 (by decide +kernel)
+  have hcls : classOf a0.bulk (Pipeline.rlVersion .tls12)
+      (Session.extGet ((t0.sh.extensions.getD []).map extPair) [0x00, 0x16]).isSome a0.tagLen = some cls0 := by
+    decide +kernel
+  have hmac : 0 < (KeySchedule.macSuite hashes a0.ks.mac).outLen := by decide +kernel
+  have hck : KeyMatOk cls0 k0.clientKey k0.clientIv := by decide +kernel
+  have hsk : KeyMatOk cls0 k0.serverKey k0.serverIv := by decide +kernel
+  have hokc : ∀ e ∈ t0.cEvs, EvOk1 cls0 (KeySchedule.macSuite hashes a0.ks.mac).outLen e := by decide +kernel
+  have hoks : ∀ e ∈ t0.sEvs, EvOk1 cls0 (KeySchedule.macSuite hashes a0.ks.mac).outLen e := by decide +kernel
+  have hwr : ∀ d, ∀ r ∈ t0.records Cipher.Toy.prims Cipher.Toy.laws cls0 (legacySnd k0) d, WholeRecord r := by
+    intro d; cases d <;> decide +kernel
+  have hlen : t0.cEvs.length + t0.sEvs.length ≤ seqLimit := by decide +kernel
+  have hsc : Script12 t0.cEvs := ⟨[[16, 0, 0, 2, 9, 9]], _, rfl, by decide, by
+    intro e he
+    simp only [List.mem_cons, List.mem_nil_iff, or_false] at he
+    rcases he with rfl | rfl | rfl <;> exact ⟨_, _, _, rfl, by decide⟩⟩
+  have hss : Script12 t0.sEvs := ⟨[[11, 0, 0, 3, 1, 2, 3, 14, 0, 0, 0]], _, rfl, by decide, by
+    intro e he
+    simp only [List.mem_cons, List.mem_nil_iff, or_false] at he
+    rcases he with rfl | rfl <;> exact ⟨_, _, _, rfl, by decide⟩⟩
+  have e1 : Spec.TlsConnection.plainOf t0.cEvs = hi := by decide +kernel
+  have e2 : Spec.TlsConnection.plainOf t0.sEvs = k16 := by decide +kernel
+  -- the key log the tool reads from the text
+  have hkl : (Keylog.findSessionSecrets ((fileKeysOf (some (C09Found.fileText ls0))).getD [])
+      (Pipeline.natsOfBytes t0.ch.random)).filter
+        (fun k => k.label == Keylog.s_CLIENT_RANDOM || k.label == Keylog.s_RSA) = fkU :: [] := by
+    rw [C09Found.found12_fileText ls0 ls0_wf]; exact hfound
+  obtain ⟨hF, hcand, _, _, hdelv⟩ := described_session fl0 (by decide) evs0 described0 (optsOf args0 ports0 []) rfl
+    (by decide +kernel) (by decide +kernel) p00 TLX.Props.C01File.Ex.pkts0.tail fp0
+  -- the session-level facts, for `RecordsFit` and `OthersFit`
+  obtain ⟨frames, hconn, hre, _⟩ := tls12_connection_exact hashes Cipher.Toy.prims Cipher.Toy.laws
+    ((fileKeysOf (some (C09Found.fileText ls0))).getD []) (capInfo (evs0.map CEv.cap)) sess0 rfl t0
+    (by decide) (by decide) rfl rfl rfl rfl .tls12 (by decide) (by unfold Negotiated; decide)
+    ps0 hres a0 hargs fkU [] hkl secrets0 hsec k0 hgen cls0 hcls hmac hck hsk hsc hss hokc hoks hwr hlen
+    (hdelv _ wires0) causal0'
+  rw [e1, e2] at hre
+  have hrecfit := recordsFit_of_total _ _ _ _ _ frames hi k16 hconn hre (by decide)
+  have h := tls12_capture_exact_text (fun _ _ _ => none) hashes Cipher.Toy.prims Cipher.Toy.laws
+    fl0 (by decide) evs0 described0 times0 cv0 cevs0 cwf0 items0
+    args0 ls0 ls0_wf rfl rfl [] ports0 rfl rfl (by decide +kernel) (by decide +kernel) p00 TLX.Props.C01File.Ex.pkts0.tail fp0
+    t0 (by decide) (by decide) rfl rfl rfl rfl .tls12 (by decide) (by unfold Negotiated; decide)
+    ps0 hres a0 hargs fkU [] hfound secrets0 hsec k0 hgen cls0 hcls hmac hck hsk hsc hss hokc hoks hwr hlen
+    wires0 causal0' (by decide) (by decide) (by intro kv hkv; cases hkv) (by rw [e1, e2]; decide) hrecfit hus
+    (fun blk hblk => othersFit_of_ignored _ _ _ args0 _ fl0 evs0 described0 rfl [] ports0 rfl rfl
+      (by
+        intro e he
+        simp only [evs0, List.mem_cons] at he
+        rcases he with he | he
+        · cases he; exact arp_ignored
+        · exfalso
+          have : ∀ (l : List (Bool × Bytes × Nat)) (n : Nat), CEv.foreign e ∉ segEvs n l := by
+            intro l
+            induction l with
+            | nil => intro n h; cases h
+            | cons x xs ih =>
+              obtain ⟨d, pl, off⟩ := x
+              intro n h
+              simp only [segEvs, List.mem_cons] at h
+              rcases h with h | h
+              · cases h
+              · exact ih (n + 1) h
+          exact this _ _ he)
+      p00 TLX.Props.C01File.Ex.pkts0.tail fp0 hcand blk hblk)
+  rw [e1, e2] at h
+  exact h
+end TLX.Props.C01File2.Ex
